@@ -7,6 +7,7 @@ functions, initial assignments, names of generated functions, name of the genera
 import MxlVerif.Lemmas.C17
 import MxlVerif.Lemmas.C17Codegen
 import MxlVerif.Lemmas.C17Names
+import MxlVerif.Lemmas.C17Rename
 namespace Mxl.C17
 open Mxl.C08
 
@@ -271,5 +272,17 @@ example : inNameDomain "glc_c" = true ∧ inNameDomain "lambda" = true ∧ inNam
 theorem C17_rename_expression_consistent (I : Interp) (f : String → String) (e1 e2 : VEnv) (m : MathML)
     (h : ∀ n ∈ mathNames m, e2 (f n) = e1 n) : evalMath I e2 (mapMath f m) = evalMath I e1 m :=
   evalMath_rename I f e1 e2 m h
+
+/-- **References still resolve after renaming**, at the level of the document: if `f` is injective on the
+    identifiers a flat document defines or mentions (`DocIn d D`, `InjOn f D` — for pysbml's mapping: D =
+    `inNameDomain`, by `C17_name_mapping_injective`), then the renamed document (`SDoc.mapNames f`: every key and
+    every `ci` passed through `f`) gives the renamed identifier the initial value the original document gives the
+    original one.  Lookups by key, last-wins lookups, reaction lookups and the math all commute with `f`.
+    (The same statement for `docValue` / `docRhs` is not proved: species-reference ids are not renamed by
+    pysbml — finding F-C17-5 — and the tie covers them.) -/
+theorem C17_rename_docInit_consistent (I : Interp) (f : String → String) (D : String → Prop) (hinj : InjOn f D)
+    (d : SDoc) (hd : DocIn d D) (fuel : Nat) (n : String) (hn : D n) :
+    docInit I (d.mapNames f) fuel (f n) = docInit I d fuel n ∧ (d.mapNames f).fuel = d.fuel :=
+  ⟨docInit_rename I f hinj d hd fuel n hn, fuel_mapNames f d⟩
 
 end Mxl.C17
